@@ -113,6 +113,29 @@ PROPS['C15'] = {
     'assumptions': ['Base64 and IP prefix text are canonicalised by the harness before comparison'],
 }
 
+PROPS['C07'] = {
+    'level': 'proof',
+    'technique': 'Lean 4 theorems on a byte-level model of the RTR PDU readers/writers (round trip, truncation => eof, exact '
+                 'consumption, skip_payload termination under any chunking) + differential check of every truncation/corruption',
+    'claim': 'Lean 4 proofs for all field values and versions: every payload / End-of-Data PDU and every sequence of them reads back '
+             'unchanged with the length field equal to the bytes written; Payload::new/to_payload return the same item and action '
+             '(resolved max-len; withdrawn ASPA empty) with correct version gating; a stream ending anywhere inside a PDU gives eof; '
+             'unknown type / wrong fixed length / bad EoD version give invalid right after the header; whatever is accepted consumed '
+             'exactly the announced length; Error::skip_payload terminates under every read chunking with ok/eof/invalid exactly as '
+             'the stream allows. The tokio futures themselves (read_exact, write_all) are modelled, not verified.',
+    'note': 'Streams are finite byte lists followed by EOF; read_exact/read are modelled by readExact/rawRead. Struct sizes, PDU type '
+            'numbers, the skip buffer size and the presence of the EOF check are regenerated from src/rtr/pdu.rs on every run. Hangs on '
+            'the real code are detected by a per-case watchdog thread.',
+    'shards': {'quick': 4, 'thorough': 16},
+    'budget': {'quick': 900, 'thorough': 7200},
+    'rule': 'every payload item of a boundary pool x versions {0,1,2,3,255} x flags {0,1,2,3,254,255} written and read back; all control '
+            'PDUs x versions x boundary session/serial/timing; EVERY truncation point of every encoded PDU and of 3-PDU sequences; header '
+            'type/version/length corruption tables; hostile prefix/max-len fields; oversized ASPA/router-key lengths; control readers; '
+            'skip_payload on every cut of bodies of 10 sizes under 6 chunk schedules; random byte strings.',
+    'trusted_base': ['tokio AsyncRead/AsyncWrite semantics (read_exact atomic on a finite stream, read returns 0 only at EOF)'],
+    'assumptions': ['memory allocation for announced lengths (vec![0; len]) is outside the model'],
+}
+
 NOT_APPLICABLE = {
 }
 for _i in range(1, 18):
